@@ -179,6 +179,12 @@ def fix_member(desc, tier, seed):
         fixed = {}
         wit = ['COMPLETE', [list(s) for s in seq]]
         nt = (desc.label, str(seq))
+        # the processor has served decodes before anything is fixed (its persistent masks and caches exist)
+        for x in probes_all(gp)[:4]:
+            try:
+                gp.get_graph(list(x))
+            except Exception:  # noqa
+                pass
         for op in seq:
             if op[0] == 'fix':
                 _, k, v = op
@@ -224,6 +230,11 @@ def fix_member(desc, tier, seed):
                                       tuple(round(float(v), 9) for v in xi) in set(exp) or
                                       any(not dv.is_discrete for dv in gp.des_vars), wit + [x],
                                       f'decode {x} -> {list(xi)} not in the restricted enumeration', nt)
+                            # the same decode without materialising the instance
+                            _, xi0, ai0 = gp.get_graph(list(x), create=False)
+                            ctx.check('C15.decode-without-instance-agrees', list(map(float, xi0)) == list(map(float, xi)) and
+                                      list(map(bool, ai0)) == list(map(bool, ai)), wit + [x, 'create=False'],
+                                      f'decode {x}: create=False gives {list(xi0)} / {list(ai0)}, create=True {list(xi)} / {list(ai)}', nt)
                         except Exception as e:  # noqa
                             ctx.check('C15.decode-inside-restriction', len(exp) == 0, wit + [x],
                                       f'decode raised {type(e).__name__}: {e} although {len(exp)} designs remain', nt)
